@@ -14,7 +14,7 @@ CONTAINER_OPS = {
     'insert': 'insert_at', 'emplace': 'insert_at',
     'front': 'read_front', 'top': 'read_front', 'back': 'read_back',
     'pop_front': 'remove_front', 'pop': 'remove_front', 'pop_back': 'remove_back',
-    'erase': 'erase', 'remove': 'erase_value', 'remove_if': 'erase_value', 'clear': 'clear',
+    'erase': 'erase', 'erase_range': 'erase_range', 'remove': 'erase_value', 'remove_if': 'erase_value', 'clear': 'clear',
     'begin': 'scan', 'end': 'scan', 'cbegin': 'scan', 'cend': 'scan', 'rbegin': 'rscan', 'rend': 'rscan',
     'empty': 'query', 'size': 'query', 'operator[]': 'index', 'at': 'index', 'swap': 'swap', 'operator=': 'assign',
     'reserve': 'query', 'resize': 'resize', 'iterator_to': 'scan', 'assign': 'assign', 'splice': 'insert_at',
@@ -83,7 +83,35 @@ def field_uses(prog, fieldq, fns=None):
                     for d in n.get('decls', ()):
                         if d.get('init') is not None:
                             stack.append((d['init'], {'k': 'DeclInit', 'd': d}, 'init'))
-        # range-for terminators carry the range expression separately; the __range decl element covers it
+        # a local reference bound to the field (`auto& q = obj->field_;`) is the field under another name: its uses are uses of the field
+        for al in [u for u in out if u.fn is fn and u.kind == 'alias' and u.parent is not None]:
+            dv = al.parent['d'].get('d') or {}
+            name, at = dv.get('n'), dv.get('at')
+            if not name:
+                continue
+            found = 0
+            for eid, el in enumerate(elems):
+                stack = [(el['x'], None, None)]
+                while stack:
+                    n, parent, slot = stack.pop()
+                    if not isinstance(n, dict):
+                        continue
+                    k = n.get('k')
+                    if k == 'Ref' and (n.get('d') or {}).get('n') == name and (n.get('d') or {}).get('at') == at:
+                        out.append(_classify(fn, eid, el, n, parent, slot))
+                        found += 1
+                    if n.get('obj') is not None:
+                        stack.append((n['obj'], n, 'obj'))
+                    if n.get('callee') is not None:
+                        stack.append((n['callee'], n, 'callee'))
+                    for i, a in enumerate(n.get('a') or ()):
+                        stack.append((a, n, i))
+                    if k == 'Decl':
+                        for d in n.get('decls', ()):
+                            if d.get('init') is not None:
+                                stack.append((d['init'], {'k': 'DeclInit', 'd': d}, 'init'))
+            al.kind = 'query'          # the binding itself does nothing to the field; what is done through the name is listed above
+            al.method = 'reference %s (%d use(s) followed)' % (name, found)
     return out
 
 
@@ -101,6 +129,18 @@ def _classify(fn, eid, el, n, parent, slot):
             if m in SMART_WRITE:
                 return Use(kind='write', method=m, op='=', **base)
             return Use(kind='read', method=m, **base)
+        if m == 'erase' and len(parent.get('a') or ()) == 2:
+            a0 = parent['a'][0]
+            while isinstance(a0, dict) and a0.get('k') == 'R':
+                a0 = fn['elems'][a0['r']]['x']
+            while isinstance(a0, dict) and a0.get('k') in ('Cast', 'Conv', 'Ctor', 'Temp') and a0.get('a'):
+                a0 = a0['a'][0]
+                while isinstance(a0, dict) and a0.get('k') == 'R':
+                    a0 = fn['elems'][a0['r']]['x']
+            if isinstance(a0, dict) and a0.get('k') == 'Call' and (a0.get('c') or {}).get('q') in ('std::remove_if', 'std::remove'):
+                m = 'remove_if'      # the erase-remove idiom
+            else:
+                m = 'erase_range'    # erase(first, last) removes other elements than the one found
         return Use(kind='call', method=m, callee=c.get('q'), **base)
     if pk == 'Bin' and parent.get('op') in ex.ASSIGN_OPS and slot == 0:
         return Use(kind='write', op=parent['op'], **base)
